@@ -384,8 +384,14 @@ class Uri(six.text_type):
 
     def __eq__(self, other):
         if not isinstance(other, Uri):
-            return NotImplemented
+            # Not NotImplemented: that would fall back to the plain string
+            # comparison and make a Uri equal to any string with the same text.
+            return False
         return super(Uri, self).__eq__(other)
+
+    def __ne__(self, other):
+        return not self.__eq__(other)
+
 
 
 class Bin(six.text_type):
@@ -401,8 +407,14 @@ class Bin(six.text_type):
 
     def __eq__(self, other):
         if not isinstance(other, Bin):
-            return NotImplemented
+            # Not NotImplemented: that would fall back to the plain string
+            # comparison and make a Bin equal to any string with the same text.
+            return False
         return super(Bin, self).__eq__(other)
+
+    def __ne__(self, other):
+        return not self.__eq__(other)
+
 
 
 class XStr(object):
